@@ -34,3 +34,41 @@ MUTANTS = [
  dict(id='c09-exponent', props=['C09'], file=A, count=3,
       old='(1.0 / coeffs["X"])', new='(1.0 / (coeffs["X"] + 1e-3))'),
 ]
+
+T = 'athlib/tyrving_score.py'; Q = 'athlib/qkids_score.py'; S = 'athlib/sportshall_score.py'; B = 'athlib/bulgarian_score.py'
+H = 'athlib/hungarian_score.py'
+MUTANTS += [
+ # ---- C05 / C11 -----------------------------------------------------------------
+ dict(id='c05-bulg-swap-rows', props=['C05', 'C11'], file=B,
+      old="    9461: 115,\n", new="    9461: 113,\n", count=1),
+ dict(id='c05-tyrving-stav-sign', props=['C05', 'C11'], file=T,
+      old="else diffs[0]*multipliers[1] if diffs[1]>0", new="else -diffs[0]*multipliers[1] if diffs[1]>0"),
+ dict(id='c05-qkids-noclamp', props=['C05', 'C11'], file=Q,
+      old="return max(10,min(v,100))", new="return min(v,100)"),
+ dict(id='c05-sportshall-ge-gt', props=['C11'], file=S,
+      old="if dperf >= Decimal(v1):  # look higher", new="if dperf > Decimal(v1):  # look higher"),
+ dict(id='c05-hungarian-round', props=['C05'], file=H,
+      old="return floor(a * (performance + b)**2 + c)", new="return round(a * (performance + b)**2 + c + 0.5*((performance*100)%2))"),
+ dict(id='c05-tyrving-manual-sign', props=['C05', 'C11'], file=T,
+      old="v += inc #correct for manual timing", new="v -= inc #correct for manual timing"),
+ dict(id='c11-tyrving-nofuzz', props=['C11'], file=T, count=3,
+      old="int(1000 + 1e-8 + ", new="int(1000 + "),
+ dict(id='c11-qkids-nofuzz', props=['C11'], file=Q,
+      old="v = int(1e-6 + delta/row[0] + 10)", new="v = int(delta/row[0] + 10)"),
+ dict(id='c11-tyrving-base-edit', props=['C11'], file=T,
+      old="'800': ['race', [800, 1.5, [14, [141, 138.5, 136, 134, 133, 132.5]]]],", new="'800': ['race', [800, 1.5, [14, [141, 138.5, 136.01, 134, 133, 132.5]]]],"),
+ dict(id='c11-bulg-clamps', props=['C11'], file=B,
+      old="""    if int_perf < min_val:
+      return 0
+    elif int_perf > max_val:
+      return 150""", new="""    if int_perf <= min_val:
+      return 0
+    elif int_perf > max_val:
+      return 150"""),
+ dict(id='c11-sportshall-unfuzz', props=['C11'], file=S, count=2,
+      old="/  info['increment'] + FUZZ))", new="/  info['increment']))"),
+ dict(id='c11-bulg-unround', props=['C11'], file=B,
+      old="int_perf = int(round(100 * performance, 6))", new="int_perf = int(100 * performance)"),
+ dict(id='c11-sportshall-low-boundary', props=['C11'], file=S,
+      old="if dperf <= Decimal(v1):  # look higher", new="if dperf < Decimal(v1):  # look higher"),
+]
